@@ -95,13 +95,20 @@ pub trait Arithmetic {
     fn neg(self) -> Result<Expression, Error>;
 }
 
-impl<T> Arithmetic for T
-where
-    T: Into<CanonicalAssets> + std::fmt::Debug,
-{
+/// Asset lists can only be folded once every amount is a number, anything else
+/// (eg: a wrongly typed argument) is reported instead of assumed away.
+pub fn assets_into_canonical(assets: Vec<AssetExpr>) -> Result<CanonicalAssets, Error> {
+    if assets.iter().any(|x| x.amount.as_number().is_none()) {
+        return Err(Error::CannotCoerceIntoAssets(Expression::Assets(assets)));
+    }
+
+    Ok(CanonicalAssets::from(assets))
+}
+
+impl Arithmetic for Vec<AssetExpr> {
     fn add(self, other: Expression) -> Result<Expression, Error> {
         let y = match other {
-            Expression::Assets(x) => CanonicalAssets::from(x),
+            Expression::Assets(x) => assets_into_canonical(x)?,
             Expression::None => CanonicalAssets::empty(),
             other => {
                 return Err(Error::InvalidBinaryOp(
@@ -112,7 +119,7 @@ where
             }
         };
 
-        let x = self.into();
+        let x = assets_into_canonical(self)?;
         let total = x + y;
         Ok(Expression::Assets(total.into()))
     }
@@ -123,7 +130,7 @@ where
     }
 
     fn neg(self) -> Result<Expression, Error> {
-        let negated = std::ops::Neg::neg(self.into());
+        let negated = std::ops::Neg::neg(assets_into_canonical(self)?);
         Ok(Expression::Assets(negated.into()))
     }
 }
